@@ -20,6 +20,7 @@ WORDS = {
     'N4': ['1234', '98101', '0012345', '2025'],
     'H': ['#123', '#9', '#00042'],
     'ST': ['WA', 'ca', 'Ny'],
+    'S': ['&', '-', '/', '*', '+', '--', '@', '|'],
 }
 PREFIXES = ['SQ *', 'TST*', 'APLPAY ', 'PP*', 'GOOGLE *', 'SP ', 'sq *', 'Tst* ']
 
@@ -116,7 +117,7 @@ def cli_batch(item):
 def run(ck):
     quick = ck.tier == 'quick'
     ck.assumptions += ['descriptions are built from word shapes (plain, metacharacter, quote, short / long number, store number, state code, '
-                       'processor prefix) with several concrete spellings each; words of the "plain" shape have at least three letters',
+                       'processor prefix, stand-alone separator) with several concrete spellings each; words of the "plain" shape have at least three letters',
                        'budgets without field transforms (discover reports the raw description, rules match the transformed one)']
     ck.expect_model_violation('Discover/pinned', tlc.run('Discover', 'MC_Discover_neg.cfg'), 'Closure')
     tmp = tempfile.mkdtemp(prefix='c19_')
@@ -181,7 +182,7 @@ def run(ck):
             ck.violation({'site': 'discover-loop', 'clause': 'suggestion-did-not-take', 'features': describe(still[0])},
                          {'still_unknown': still}, 'after appending every suggested rule these are still Unknown: %s' % still)
     ck.sample({'shapes': list(shapes[len(shapes) // 2]), 'description': concretise(shapes[len(shapes) // 2], rnd)})
-    ck.extra['rule'] = ('every description of <= %d words over 8 word shapes (TLC state space of Discover.tla), three spellings each, through '
+    ck.extra['rule'] = ('every description of <= %d words over 9 word shapes (TLC state space of Discover.tla), three spellings each, through '
                         'suggest_pattern / suggest_merchant_name / suggest_merchants_rule + parse_merchants.match; batches of 40 descriptions '
                         'through the real `tally discover`, the suggestions appended, `tally up` rerun. non-trivial = multi-word description'
                         % 4)
